@@ -5,7 +5,7 @@ import ast
 import re
 from typing import Dict, List, Optional, Set, Tuple
 
-from .. import AnalysisError, PKG, flow
+from .. import AnalysisError, PKG, flow, rules
 from ..index import enclosing_func
 from ..loader import parent, dotted, Class
 from ..report import Ctx
@@ -60,9 +60,31 @@ def run(ctx: Ctx):
     ctx.attempt(index_values, ctx)
     ctx.attempt(lazy_iterators, ctx)
     ctx.attempt(observers, ctx)
+    ctx.attempt(hidden_inputs, ctx)
     ctx.floor("IM.closure", 35)
     ctx.floor("IM.effect", 1)
     ctx.not_decided += ["mutable payload parts outside SimulationState (DictReaderStepper cursors inside Update): information only"]
+
+
+def hidden_inputs(ctx: Ctx):
+    """D5 (second sentence of the property): stepping the same saved state twice gives the same result only if the
+    step reads nothing but its arguments. No function of the step path draws from a process-global generator
+    (random / numpy.random / secrets) or reads the wall clock; a seeded draw would still differ between the first and
+    the second step of the same state. The detector is shown alive on the initialisation samplers, which do draw."""
+    from . import c01
+    repo = ctx.repo
+    step = rules.step_path_funcs(repo)
+    outside = [f for f in repo.all_funcs() if f.relpath.startswith(PKG + "/initialization")]
+    alive = c01.hidden_input_sites(repo, outside)
+    ctx.require(len(alive) >= 3, f"the random-draw detector matched only {len(alive)} sites in initialization/ (expected the samplers)")
+    bad = c01.hidden_input_sites(repo, step)
+    for fn, node, d in bad:
+        ctx.violation("D5", "IM.hidden-input", f"{fn.qualname}: {d}()", fn, node,
+                      why="the step path reads process-global state (generator / clock): stepping the same saved state twice no longer gives the same result",
+                      construct=f"{fn.qualname}:hidden-input:{d}")
+    if not bad:
+        ctx.ok("D5", "IM.hidden-input", f"{len(step)} step-path functions draw from no process-global generator or clock",
+               why=f"0 matching calls in the step path; detector matched {len(alive)} calls in initialization/ on this run")
 
 
 # ------------------------------------------------------------------------------------------ closure
@@ -420,5 +442,8 @@ def selftest():
         V("generator-in-controller", STEP, "            instruction_generator_order=tuple(i_gen.name for i_gen in updated_i_gens),", "            instruction_generator_order=(i_gen.name for i_gen in updated_i_gens),", rule="IM.lazy-iterator"),
         V("mutation-escapes", DO, "            tmp = mutable.finish()\n        return tmp", "            tmp = mutable\n        return tmp", rule="IM.effect"),
         V("module-counter", "nrel/hive/state/simulation_state/simulation_state_ops.py", "def tick(sim: SimulationState) -> SimulationState:", "_TICKS = []\n\n\ndef tick(sim: SimulationState) -> SimulationState:\n    _TICKS.append(1)", rule="IM"),
+        V("random-tiebreak-in-step", "nrel/hive/state/simulation_state/update/step_simulation_ops.py", "        sorted_other_vehicles = tuple(sorted(other_vehicles, key=lambda v: v.id))", "        import random\n        sorted_other_vehicles = tuple(sorted(other_vehicles, key=lambda v: (v.id, random.random())))", rule="IM.hidden-input"),
+        V("aliased-numpy-draw-in-step", "nrel/hive/state/simulation_state/simulation_state_ops.py", "def tick(sim: SimulationState) -> SimulationState:", "def tick(sim: SimulationState) -> SimulationState:\n    from numpy.random import uniform as _u\n    _jitter = _u()", rule="IM.hidden-input"),
+        V("wall-clock-in-step", "nrel/hive/state/simulation_state/simulation_state_ops.py", "def tick(sim: SimulationState) -> SimulationState:", "def tick(sim: SimulationState) -> SimulationState:\n    import time as _t\n    _now = _t.time()", rule="IM.hidden-input"),
         V("twin-local-list", "nrel/hive/state/simulation_state/update/step_simulation_ops.py", "        results.append((instruction, instruction_result))", "        results.extend([(instruction, instruction_result)])", kind="twin"),
     ]
